@@ -17,6 +17,7 @@ Inductive dml_spec :=
 | SpDelete (tbl : string) (wh : option term).
 
 Definition ptab (n : string) : tref := {| tname := n; tschema := []; talias := None |}.
+Definition t_of (r : res dstate) : res string := match r with Ok st => dml_text st | Err e => Err e end.
 Definition spec_table (s : dml_spec) : string :=
   match s with SpInsert _ t _ _ | SpInsertSelect _ t _ _ _ _ | SpUpdate t _ _ | SpDelete t _ => t end.
 Definition start_of (s : dml_spec) : start :=
@@ -193,6 +194,23 @@ Theorem C05_builder_positional_update : forall c s cs, forallb nodml_call cs = t
 Proof. intros c s cs H. exact (run_positional_nodml cs (init c s) H). Qed.
 Print Assumptions C05_builder_positional_update.
 
+(* the INSERT target may be chosen late: into() after any from_() / where() / limit() calls leaves exactly the state of
+   into() first, so everything above holds for those call orders too (into() AFTER select() is pypika's SELECT ... INTO,
+   a different statement) *)
+Theorem C05_into_position_irrelevant : forall c t pre post, forallb pre_into_call pre = true ->
+  run c SBuilder (pre ++ KInto t :: post) = run c (SInto t) (pre ++ post).
+Proof. exact into_position_irrelevant. Qed.
+Print Assumptions C05_into_position_irrelevant.
+Example C05_insert_select_call_orders :
+  let u := ptab "u" in let t := ptab "t" in let x := TField "x" None None in
+  let w := TBasic CGt x (TValI 1 None) None in
+  t_of (run CSQLLite SBuilder [KFrom u; KInto t; KColumns [ColOne (CStr "a")]; KSel [x]; KWhere w; KInsertOrReplace []])
+  = Ok "INSERT OR REPLACE INTO ""t"" (""a"") SELECT ""x"" FROM ""u"" WHERE ""x"">1"
+  /\ t_of (run CSQLLite SBuilder [KWhere w; KInto t; KReplace []; KSel [x]; KFrom u; KColumns [ColSeq [CStr "a"]]])
+     = Ok "REPLACE INTO ""t"" (""a"") SELECT ""x"" FROM ""u"" WHERE ""x"">1"
+  /\ t_of (run CSQLLite SBuilder [KSel [x]; KFrom u; KInto t]) = Err "unmodelled".
+Proof. vm_compute. repeat split; reflexivity. Qed.
+
 (* the literal round trip the quote-aware reader rests on: ANY bytes — quotes, row separators, commas, parentheses, comment
    markers, newlines — come back unchanged, and the rest of the text is untouched *)
 Theorem C05_literal_round_trip : forall s rest, delim_head rest = true ->
@@ -315,7 +333,6 @@ Print Assumptions C05_structure_any_value_holds.
    They are repaired in pypika (fbde87c, 33fa91c, 5249523); the model follows through the regenerated tables.  The
    examples state the repaired texts (a regression of the code breaks them) and, as pure string facts, what the old
    texts meant to the engine. *)
-Definition t_of (r : res dstate) : res string := match r with Ok st => dml_text st | Err e => Err e end.
 Example C05_double_minus_repaired :
   t_of (run CSQLLite (SUpdate (ptab "t")) [KSet (CStr "a") (VTerm (TArith OSub (TField "b" None None) (TValI (-1) None) None));
                                             KWhere (TBasic CEq (TField "id" None None) (TValI 2 None) None)])
